@@ -73,6 +73,18 @@ def native_factor():
     return NATIVE_FACTOR
 
 
+def thin(V, keep=2):
+    """At most `keep` occurrences per (signature, tags) from the visit of one state: a broken reader fails for
+    hundreds of arguments in every state; shipping them all to the parent only costs memory."""
+    seen, out = {}, []
+    for v in V:
+        k = (v[0], v[5])
+        seen[k] = seen.get(k, 0) + 1
+        if seen[k] <= keep:
+            out.append(v)
+    return out
+
+
 def tup(x):
     return tuple(tup(i) for i in x) if isinstance(x, (list, tuple)) else x
 
@@ -400,7 +412,7 @@ class Spec:
         except Hang:
             V.append(('C11|read:battery|hang', self.case(hist), 'terminates', 'no result within the CPU budget',
                       None, ()))
-        out.append((('<reads>',), None, ('<reads>', 'ok' if not V else 'disagree'), V))
+        out.append((('<reads>',), None, ('<reads>', 'ok' if not V else 'disagree'), thin(V)))
         if len(hist) >= self.depth:
             return out
         _, L = self.build(hist)
@@ -595,7 +607,7 @@ def configs(tier):
     q = tier == 'quick'
     base = (0, 1, 2, 3, 4)
     out = [(1, 0, base, 4 if q else 5),       # tombstones are never compacted away (only dead tails are trimmed)
-           (2, 0, base, 4 if q else 5),       # compaction when more than half of the slots are dead
+           (2, 0, base, 4 if q else 6),       # compaction when more than half of the slots are dead
            (nat, 0, base, 8)]                 # 5 items never keep a tombstone at factor 8: finite space, fixpoint
 
     def spread(n):                            # head, middle pair, tail, one new item
@@ -685,10 +697,20 @@ def directed(ctx):
     return total
 
 
+def state_cap(cfg, tier):
+    """Safety cap (several times the number of states of a correct implementation): a defect that stops tombstones
+    from being collected makes the reachable space explode; the cap keeps the run bounded.  Hitting it is reported
+    (`capped`) and the part is then not claimed exhaustive."""
+    factor, preload, _, depth = cfg
+    if preload == 0 and factor == native_factor():
+        return 2000                      # 326 states on a correct implementation
+    return 15000 if tier == 'quick' else 120000
+
+
 def explore_one(ctx, cfg):
     spec = Spec(*cfg)
     try:
-        res = histories.explore(spec, ctx)
+        res = histories.explore(spec, ctx, max_states=state_cap(cfg, ctx.tier))
     finally:
         SU()._COMPACTION_FACTOR = native_factor()
     # the last level is a reads-only visit of the states at the depth bound; pseudo transitions are not transitions
@@ -699,7 +721,7 @@ def explore_one(ctx, cfg):
     res.reads_visits = nreads
     if len(res.levels) > spec.depth:
         res.levels = res.levels[:spec.depth]
-    if len(res.levels) >= spec.depth and res.levels[spec.depth - 1] > 0:
+    if res.capped is None and len(res.levels) >= spec.depth and res.levels[spec.depth - 1] > 0:
         res.fixpoint = False
         res.capped = 'depth %d' % spec.depth
     res.depth = min(res.depth, spec.depth)
@@ -713,8 +735,8 @@ def run(ctx):
         spec, res = explore_one(ctx, cfg)
         visits += res.reads_visits
         parts.append((spec.config, res))
-        ctx.note('factor=%s preload=%d domain=%s: states=%d transitions=%d depth=%d fixpoint=%s'
-                 % (cfg[0], cfg[1], list(cfg[2]), res.states, res.transitions, res.depth, res.fixpoint))
+        ctx.note('factor=%s preload=%d domain=%s: states=%d transitions=%d depth=%d fixpoint=%s capped=%s'
+                 % (cfg[0], cfg[1], list(cfg[2]), res.states, res.transitions, res.depth, res.fixpoint, res.capped))
     cov = histories.merge_coverage(ctx, parts, rule=(
         'BFS over all histories of the op menu (add/remove/discard per item, pop() and pop(i) for every valid i, clear, '
         'sort x3, reverse, update/intersection_update/difference_update with 0, 1 and 2 operands, '
